@@ -81,6 +81,17 @@ def config_list(seed, tier):
         nsub, cap = 10, 400
     subs, _ = configs.pool(rng, n_sub=nsub, max_n=5, cap=cap, shipped=False, min_n=2)
     out += [c for c in subs if c['compl'] >= 2]
+    # "deep and narrow": one unary and one binary operator at complexity 6 (122 functions), product-only at complexity 7 (80):
+    # the cheapest libraries with three-parameter functions that do NOT collapse to one constant (a1*a2*sin(a0)), i.e. where a
+    # function passes through several parameter pairs of one simplification call and keeps two parameters afterwards
+    dn = [[["x", "a"], ["sin"], ["*"]]]
+    for _ in range(1 if tier == 'quick' else 5):
+        dn.append([["x", "a"], [rng.choice(configs.UNARY)], [rng.choice(["*", "+", "*", "/"])]])
+    for b in dn:
+        if not any(c['basis'] == b for c in out):
+            out.append(dict(runname=configs.basis_name(b), basis=b, compl=6, nfun=configs.nfun(b, 6), deep_narrow=True))
+    b7 = [["x", "a"], [], ["*"]]
+    out.append(dict(runname=configs.basis_name(b7), basis=b7, compl=7, nfun=configs.nfun(b7, 7), deep_narrow=True))
     return out
 
 
@@ -197,7 +208,7 @@ def main(tier, seed, budget):
     src = source_lines()
     stats = dict(worlds=0, profile_worlds=0, faults_planned=0, faults_fired=0, armed_not_fired=0, by_gran={}, by_site={},
                  by_P={}, multi_fault_worlds=0, blocks_opened=0, covered=set(), worlds_nontrivial=set(), probes={k: 0 for k in PROBES}, timeouts_handled_msgs=0,
-                 events=0, ticks_total=0, blocks_total=0, classes_total=0, sound_functions=0, ref_failed=[], directed_known_finding_worlds=0, sweep=[], repeat_sweep=[], line_sweep=[], line_pair_sweep=[])
+                 events=0, ticks_total=0, blocks_total=0, classes_total=0, sound_functions=0, ref_failed=[], directed_known_finding_worlds=0, sweep=[], repeat_sweep=[], line_sweep=[], line_pair_sweep=[], block_sweep=[])
     samples = []
     selftest = {}
     with Pool(16, hashseed=0) as pool:
@@ -449,6 +460,36 @@ def main(tier, seed, budget):
                 for job, out in pool.imap(lj, timeout=900):
                     handle(job, out, pending_min)
                 stats['line_sweep'].append(dict(config=list(key), source_lines=len(lj), plans_run=stats['worlds'] - n0, complete=True, occurrences=[1]))
+        def block_sweep(key, cap):
+            """One fault per time-limited block that did more than the trivial path of its step (the function really entered
+            the step), at a seeded statement of the block: systematic over FUNCTIONS x STEPS, where the sampled plans are
+            systematic over code paths."""
+            if key not in profiles:
+                return
+            pr = profiles[key][0]
+            least = {}
+            for e in pr:
+                k_ = str(e[4])
+                least[k_] = min(least.get(k_, 10 ** 9), e[1])
+            cands = [e for e in pr if e[1] > least[str(e[4])]]
+            rng = base.rng_for(seed, 'c15-block-sweep', key)
+            total = len(cands)
+            if cap and len(cands) > cap:
+                cands = sorted(rng.sample(cands, cap))
+            bj = []
+            for e in cands:
+                a = base_args(cfg_by[key[:2]], 1, base.run_seed(seed, 350000 + e[0]))
+                a['plan'] = {'0': {str(e[0]): ['stmt', rng.randint(1, max(1, e[1]))]}}
+                a['max_steps'] = 40 * prof_steps[key] + 5000
+                bj.append(dict(fn=JOB, args=a, timeout=900))
+            n0 = stats['worlds']
+            for job, out in pool.imap(bj, timeout=900):
+                handle(job, out, pending_min)
+            stats['block_sweep'].append(dict(config=list(key), blocks_beyond_the_trivial_path=total, worlds_run=stats['worlds'] - n0,
+                                                            complete=stats['worlds'] - n0 == total))
+        for c_ in cfgs:
+            if c_.get('deep_narrow'):
+                block_sweep((c_['runname'], c_['compl'], 1), 160 if quick else 1500)
         rare_line_sweep(('core_maths', 5, 1), ('core_maths', 3, 1), 2 if quick else 6)
         rare_line_sweep(('core_maths', 4, 1), ('core_maths', 3, 1), 2 if quick else 6)
         # ---- directed: the parameter-renumbering step of every function times out (known finding, see known_findings.json):
@@ -498,7 +539,7 @@ def main(tier, seed, budget):
         fault_free_profile=dict(blocks=stats['blocks_total'], statement_ticks=stats['ticks_total'], path_classes=stats['classes_total']),
         faults_planned=stats['faults_planned'], faults_fired=stats['faults_fired'], armed_not_fired=stats['armed_not_fired'],
         fired_by_granularity=stats['by_gran'], fired_by_call_site=stats['by_site'], worlds_by_P=stats['by_P'],
-        multi_fault_worlds=stats['multi_fault_worlds'], directed_known_finding_worlds=stats['directed_known_finding_worlds'], probes=stats['probes'], single_fault_sweep=stats['sweep'], same_path_every_round_sweep=stats['repeat_sweep'], slow_statement_sweep=stats['line_sweep'], two_slow_statements_sweep=stats['line_pair_sweep'],
+        multi_fault_worlds=stats['multi_fault_worlds'], directed_known_finding_worlds=stats['directed_known_finding_worlds'], probes=stats['probes'], single_fault_sweep=stats['sweep'], same_path_every_round_sweep=stats['repeat_sweep'], slow_statement_sweep=stats['line_sweep'], two_slow_statements_sweep=stats['line_pair_sweep'], one_fault_per_nontrivial_block_sweep=stats['block_sweep'],
         seam_events=stats['events'], functions_checked_by_libsound=stats['sound_functions'],
         simulated_time=dict(seam_events=stats['events'], timed_blocks_opened=stats['blocks_opened'],
                             note='virtual time stands still inside a timed block unless the fault plan expires it; the measure of simulated time is the number of seam events and of timed blocks executed'),
